@@ -17,7 +17,7 @@ P == INSTANCE MappingSyntax WITH SourceFileBounded <- Bounded
 
 Alphabet == {10, 13, 32, 35, 45, 62, 58, 97, 40}
 Tokens == {<<10>>, <<13>>, B("a"), B(" -> "), B(":"), B("    "), B("1"), B("("), B(")"),
-           B("# {\"id\":\"sourceFile\",\"fileName\":\""), B("\""), B("\"}"), B("#"), B(" ")}
+           B("# {\"id\":\"sourceFile\",\"fileName\":\""), B("\""), B("\"}"), B("#"), B(" "), <<92>>}
 
 \* line fragments: every field scan of every sub-parser can be cut short by the line end and
 \* completed by a later line (truncated lines followed by well-formed ones)
@@ -25,7 +25,8 @@ Fragments == {<<10>>, <<13, 10>>,
               B("a -> b"), B(":"), B("a"), B(" -> b:"),
               B("    int f"), B(" -> g"), B("    void m(x"), B(") -> n"), B("):3:4 -> n"), B("    1:2:void m()"), B(":3"),
               B("    1:"), B("2:void m() -> n"), B("    void"), B(" m() -> n"),
-              B("# k"), B(": v"), B("# {\"id\":\"sourceFile\",\"fileName\":\"F"), B("\"}")}
+              B("# k"), B(": v"), B("# {\"id\":\"sourceFile\",\"fileName\":\"F"), B("\"}"),
+              B("# {\"id\":\"sourceFile\",\"fileName\":\"F") \o <<92>>, <<92, 34>>}   \* a backslash (no escape syntax exists) at the line end
 
 \* UTF-8 is validated token by token: a character cut short (in front of a delimiter or anywhere else), a stray
 \* continuation byte, an invalid byte and a well-formed two-byte character are inserted at EVERY byte position of
